@@ -382,10 +382,53 @@ def beta_ir(stmts):
     return [s for s in out if not (s[0] == "decl" and s[1] in lams and s[1] not in state["other"] and s[2] is lams[s[1]])]
 
 
+def _mentions(x, name) -> bool:
+    if isinstance(x, tuple):
+        if len(x) == 2 and x[0] == "ref" and x[1] == name:
+            return True
+        return any(_mentions(y, name) for y in x)
+    if isinstance(x, list):
+        return any(_mentions(y, name) for y in x)
+    return False
+
+
+def index_loops(stmts):
+    """INDEX-LOOP: `for (i = 0; i < X.size(); ++i) { T& e = X[i]; S }` with i used nowhere else in S (the bound possibly held in a const local
+    declared just before) is `for (T& e : X) S` -- the same elements in the same order"""
+    out = []
+    sizes = {}
+    for st in stmts:
+        if st[0] == "decl" and isinstance(st[2], tuple) and st[2] and st[2][0] == "mcall" and st[2][2] == "size" and not st[2][3] and "const" in (st[3] or ""):
+            sizes[st[1]] = st[2][1]
+        if st[0] == "for" and len(st[1]) == 1 and st[1][0][0] == "decl" and st[1][0][2] in (("num", "0"), ("num", 0)) and st[2] is not None and st[3] is not None:
+            i = st[1][0][1]
+            cond, inc, body = st[2], st[3], st[4]
+            bound = None
+            if cond[0] == "bin" and cond[1] == "<" and cond[2] == ("ref", i):
+                b = cond[3]
+                if b[0] == "mcall" and b[2] == "size" and not b[3]:
+                    bound = b[1]
+                elif b[0] == "ref" and b[1] in sizes:
+                    bound = sizes[b[1]]
+            inc_ok = inc[0] == "un" and inc[1] in ("++", "post++", "pre++") and inc[2] == ("ref", i)
+            if bound is not None and inc_ok and body and body[0][0] == "decl" and body[0][2] == ("bin", "[]", bound, ("ref", i)) \
+                    and not _mentions(body[1:], i) and not _mentions(body[1:], "break"):
+                out.append(("rangefor", body[0][1], bound, index_loops(body[1:])))
+                continue
+        if st[0] in ("if",):
+            st = ("if", st[1], index_loops(st[2]), index_loops(st[3]), st[4])
+        elif st[0] in ("for", "rangefor", "while") and isinstance(st[-1], list):
+            st = st[:-1] + (index_loops(st[-1]),)
+        out.append(st)
+    # a size local only the rewritten loop used is dead
+    used_sizes = {k for k in sizes if _mentions([x for x in out if not (x[0] == "decl" and x[1] == k)], k)}
+    return [x for x in out if not (x[0] == "decl" and x[1] in sizes and x[1] not in used_sizes)]
+
+
 def body_of(fn_decl) -> Optional[List[Any]]:
     for c in kids(fn_decl):
         if c["kind"] == "CompoundStmt":
-            return beta_ir(lower_block(c))
+            return index_loops(beta_ir(lower_block(c)))
     return None
 
 
